@@ -2,6 +2,7 @@ package props
 
 import (
 	"go/ast"
+	"go/types"
 	"regexp"
 	"strings"
 
@@ -335,5 +336,50 @@ func c14indexGroupNewestFirst(c *an.Ctx) {
 	r.AddSites(1)
 	if bisect || !desc {
 		r.Fail(f.Name+": search order", c.P.Pos(f.Body.Pos()), "getIndexGroupTimeRange no longer walks the index groups from the newest backwards (descending loop: %v, bisection: %v): with overlapping id spans an index resolves to an older group and inherits its (earlier) end time — retention deletes it while its shards are still in their window", desc, bisect)
+	}
+}
+
+func init() {
+	old := All["C14"].Run
+	All["C14"].Run = func(c *an.Ctx) {
+		old(c)
+		c14mergedRangeReachesLastShard(c)
+	}
+	All["C14"].Rules += " R7"
+	addLevel("C14", "the time range of a merged shard reaches the end of the last merged shard whenever that shard is in the catalogue (its end time is the expiry clock of the merged data).")
+}
+
+// c14mergedRangeReachesLastShard — C14.R7.  EngineImpl.MergeShards names the merged shard after
+// GetTimeRange(first, last) and expires it by that range's end.  The only reason to return the
+// first shard's own range is that the last shard is no longer in the catalogue.
+func c14mergedRangeReachesLastShard(c *an.Ctx) {
+	const MC = "lib/metaclient"
+	r := c.Rule("C14.R7", "K-ORDER+K-GUARD", MC+":(*Client).GetTimeRange — success without extending the range to the last shard's end only when the last shard is unknown")
+	f := fn(r, MC+":Client.GetTimeRange")
+	if f == nil {
+		return
+	}
+	ext := f.Find(an.MNode("<first>.TimeRange.EndTime = <last>.TimeRange.EndTime", func(g *an.Fn, m ast.Node) bool {
+		as, ok := m.(*ast.AssignStmt)
+		if !ok || len(as.Lhs) != 1 || len(as.Rhs) != 1 {
+			return false
+		}
+		return strings.HasSuffix(types.ExprString(as.Lhs[0]), ".TimeRange.EndTime") && strings.HasSuffix(types.ExprString(as.Rhs[0]), ".TimeRange.EndTime")
+	}))
+	rets := f.Find(an.ReturnsNilErr())
+	r.AddSites(ext.Len() + rets.Len())
+	if ext.Len() == 0 || rets.Len() == 0 {
+		r.Fail(f.Name+": shape", c.P.Pos(f.Body.Pos()), "expected the extension of the end time and a successful return (found %d / %d)", ext.Len(), rets.Len())
+		return
+	}
+	unknown := f.EdgesImplyingAny(an.AtomLike(`^nil==.*\.ShardTimeRangeInfo\(p3\)$`, true))
+	if len(unknown) == 0 {
+		r.Fail(f.Name+": guard", c.P.Pos(f.Body.Pos()), "the test for an unknown last shard was not found; conditions present: %s", strings.Join(f.CondAtoms(), " ; "))
+		return
+	}
+	for _, s := range rets.List {
+		if p := f.FPath([]int{f.G.Entry}, s.V, ext.Vs(), unknown); p != nil {
+			r.Fail(f.Name+": range not extended", c.P.Pos(s.Node.Pos()), "GetTimeRange can succeed with the first shard's own end time although the last shard is in the catalogue; the merged shard would expire up to n-1 shard durations early; path (lines): %s", f.DescribePath(p))
+		}
 	}
 }
